@@ -36,10 +36,20 @@ Definition sc_atoi_ptr (e : sc) (key val : string) : option Z * sc :=
             end
   end.
 
+Section FloatKeys.
+Variable fx : fixes.
+
+(** strconv.ParseFloat; with C08-nan.diff "nan" is an error like any other malformed value *)
+Definition parse_float_key (val : string) : pfloat :=
+  match parse_float val with
+  | PFok f => if fx_nan fx && negb (PrimFloat.eqb f f) then PFsyntax else PFok f
+  | r => r
+  end.
+
 Definition sc_atof (e : sc) (key val : string) : option float * sc :=
   match e with
   | Some _ => (None, e)
-  | None => match parse_float val with
+  | None => match parse_float_key val with
             | PFok f => (Some f, None)
             | _ => (None, Some (key_err key))
             end
@@ -48,7 +58,7 @@ Definition sc_atof (e : sc) (key val : string) : option float * sc :=
 Definition sc_atof_pos_ptr (e : sc) (key val : string) : option float * sc :=
   match e with
   | Some _ => (None, e)
-  | None => match parse_float val with
+  | None => match parse_float_key val with
             | PFok f => if f_lt0 f then (None, Some ("key=" +++ key +++ ", val=" +++ val +++ " must be non-negative"))
                         else (Some f, None)
             | _ => (None, Some (key_err key))
@@ -60,11 +70,12 @@ Definition sc_atof_inf (e : sc) (key val : string) : float * sc :=
   | Some _ => (0%float, e)
   | None =>
     if String.eqb val "inf" then (infinity, None)
-    else match parse_float val with
+    else match parse_float_key val with
          | PFok f => (f, None)
          | _ => (0%float, Some (key_err key))
          end
   end.
+End FloatKeys.
 
 Definition utc_methods : list string :=
   ["direct"; "ntp"; "sntp"; "httpxsdate"; "httpxsdatems"; "httpiso"; "httpisoms"; "none"; "head"].
@@ -365,7 +376,7 @@ Definition apply_key (u : ukey) (key val : string) (nowMS : Z) (c : cfg) (e : sc
     | Some v => KCont (set_addLocation (set_stopS (Some (i64 (v + ms2S nowMS))) c)) e1
     end
   | K_dur => KCont c (snd (sc_atoi e key val))
-  | K_timeoffset => let '(p, e1) := sc_atof e key val in KCont (set_timeOffset p c) e1
+  | K_timeoffset => let '(p, e1) := sc_atof fx e key val in KCont (set_timeOffset p c) e1
   | K_init => drop_ptr c e key val
   | K_tsbd => let '(p, e1) := sc_atoi_ptr e key val in KCont (set_tsbd p c) e1
   | K_mup => let '(p, e1) := sc_atoi_ptr e key val in KCont (set_mup p c) e1
@@ -384,12 +395,12 @@ Definition apply_key (u : ukey) (key val : string) (nowMS : Z) (c : cfg) (e : sc
   | K_scte35 => let '(p, e1) := sc_atoi_ptr e key val in KCont (set_scte35 p c) e1
   | K_utc => KCont c (snd (sc_utc e val))
   | K_snr => let '(p, e1) := sc_atoi_ptr e key val in KCont (set_startNr p c) e1
-  | K_ato => let '(f, e1) := sc_atof_inf e key val in KCont (set_ato f c) e1
+  | K_ato => let '(f, e1) := sc_atof_inf fx e key val in KCont (set_ato f c) e1
   | K_ltgt => let '(p, e1) := sc_atoi_ptr e key val in KCont (set_ltgt p c) e1
   | K_spd => drop_ptr c e key val
   | K_sidx => KCont c e
   | K_segtimelineloss => KCont c e
-  | K_chunkdur => let '(p, e1) := sc_atof_pos_ptr e key val in KCont (set_chunkDur p c) e1
+  | K_chunkdur => let '(p, e1) := sc_atof_pos_ptr fx e key val in KCont (set_chunkDur p c) e1
   | K_timesubsstpp => KCont (set_stpp (split_on ","%char val) c) e
   | K_timesubswvtt => KCont (set_wvtt (split_on ","%char val) c) e
   | K_timesubsdur => let '(v, e1) := sc_atoi e key val in KCont (set_subsDurMS v c) e1
